@@ -93,7 +93,9 @@ fn trees<C: Combo>(sink: &mut Sink, rng: &mut Rng, thorough: bool) {
           let last = it.peek_last().map(|r| r.start.to_u64()..r.end.to_u64());
           let h = it.size_hint();
           let rest: Vec<Range<C::T>> = it.collect();
-          format!("hintok {} {} {}", fmt_ranges(&to_u64_ranges(&rest)), fmt_opt_range(last), fmt_hint(h))
+          // at creation the announced last range must be the end of what is yielded (strict: a source that
+          // announces one yields something); after some `next()` an exhausted vector source may still answer it
+          format!("{} {} {} {}", if k == 0 { "hintok0" } else { "hintok" }, fmt_ranges(&to_u64_ranges(&rest)), fmt_opt_range(last), fmt_hint(h))
         }));
         if let Ok(line) = line {
           let kind = match st {
